@@ -25,7 +25,7 @@ from harness import parse
 from harness import surface
 
 DEPS = checks_seq.MODEL + ['Spec/Pipeline.v', 'Spec/ExcSpec.v', 'Proofs/C04.v', 'Proofs/C16.v', 'Proofs/C15.v', 'Proofs/C15x.v',
-                            'Model/Parse.v', 'Proofs/C15p.v']
+                            'Model/Parse.v', 'Proofs/C15p.v', 'Model/Json.v', 'Gen/GenSchemas.v']
 U = ops.uuid_of
 SVC = {'x-roles': 'admin,service'}
 REJECT = (400, 404, 405, 406, 415)
@@ -342,13 +342,23 @@ def run(pid, tier, out):
             corr_error = (corr_error or '') + ' parse stream: %s' % str(exc)[-600:]
     else:
         corr_error = (corr_error or '') + ' Model/Parse.v did not build'
+    # (4) JSON schemas: python-jsonschema as the handlers call it against Model/Json.v over the regenerated schemas
+    sstats, sdis, sn_cases = {}, [], 0
+    if common.vo_fresh('Model/Json.v') and common.vo_fresh('Gen/GenSchemas.v'):
+        try:
+            from harness import schemas as schemas_mod
+            sn_cases, sdis, sstats = schemas_mod.run(seed + 1516, 4 if tier == 'quick' else 60, tag='C15_%s' % tier)
+        except Exception as exc:      # noqa
+            corr_error = (corr_error or '') + ' schema stream: %s' % str(exc)[-600:]
+    else:
+        corr_error = (corr_error or '') + ' Model/Json.v or Gen/GenSchemas.v did not build'
     for e in pstats.get('escapes', [])[:3]:
         probs.append({'state': 'none', 'index': -1, 'request': {'parser_case': e['case']}, 'kind': 'parser-escape',
                       'text': 'query-string value parser raised %s instead of HTTPBadRequest on %r' % (e['exception'], e['case']),
                       'status': 500})
 
     proof_broken = (not ps['ok']) or bool(hyg) or not ok_tr
-    tie_broken = bool(disagreements) or bool(pdis) or corr_error is not None
+    tie_broken = bool(disagreements) or bool(pdis) or bool(sdis) or corr_error is not None
     for f, name, m in known_hits[:1]:
         out.known_finding('GET /allocation_candidates -> 500 KeyError with a nested sharing provider (%d requests of this run)'
                           % len(known_hits))
@@ -383,10 +393,12 @@ def run(pid, tier, out):
                 ci, step = disagreements[0]
                 d0 = {'ops': [checks_seq.op_json(c[0]) for c in cases[ci][:step + 1]],
                       'impl_observation': cases[ci][step][1], 'impl_dump': cases[ci][step][2]}
-            out.violation({'kind': 'correspondence-broken', 'stream': 'histories/default' if disagreements or not pdis else 'parse',
-                           'first_disagreement': d0, 'parser_disagreements': pdis[:5], 'error': corr_error},
-                          'model and implementation disagree (%d histories, %d parser cases) and neither oracle found a failing input'
-                          % (len(disagreements), len(pdis)), no_input=True)
+            out.violation({'kind': 'correspondence-broken',
+                           'stream': 'histories/default' if disagreements else 'parse' if pdis else 'schemas' if sdis else 'build',
+                           'first_disagreement': d0, 'parser_disagreements': pdis[:5], 'schema_disagreements': sdis[:5],
+                           'error': corr_error},
+                          'model and implementation disagree (%d histories, %d parser cases, %d schema documents) and neither oracle '
+                          'found a failing input' % (len(disagreements), len(pdis), len(sdis)), no_input=True)
     nthm = len(ps['theorems'])
     obligations = max(1, nthm + ps['lemmas'])
     discharged = obligations if ps['ok'] else sum(1 for x in ps['theorems'] if x[1])
@@ -413,7 +425,8 @@ def run(pid, tier, out):
            'route_histogram': dict(stats['route']), 'mutation_histogram': dict(stats['mutation']),
            'known_finding_hits': len(known_hits), 'problems': len(probs),
            'parser_cases': pn_cases, 'parser_disagreements': len(pdis), 'parser_cases_by_kind': pstats.get('by_kind'),
-           'parser_builtin_table_discrepancies': pstats.get('table_discrepancies')}
+           'parser_builtin_table_discrepancies': pstats.get('table_discrepancies'),
+           'schema_documents': sn_cases, 'schema_disagreements': len(sdis), 'schema_stats': sstats}
     common.write_evidence('C15', tier, 'proof', cov, t.s(), len(out.violations),
                           assumptions=['SQLite as the database', 'requests are delivered through webob (inputs webob cannot build are skipped)',
                                        'stored state = the nine core tables (project/user/consumer-type name rows excluded, as in C04)'])
